@@ -85,3 +85,8 @@ def file_mask(f):
 
 def row_mask(r):
     return sum(1 << sq_of(f, r) for f in range(8))
+
+
+def name_of(sq):
+    f, r = fr(sq)
+    return "abcdefgh"[f] + str(8 - r)
